@@ -146,6 +146,37 @@ def session_case(rng, n):
             "stdin": make_input(rng, items, read0)}
 
 
+# directed session shapes (options forced, the rest seeded): endings whose outcome depends on the marked items while the
+# query matches nothing, and record framing with several marked items
+DIRECTED = [
+    {"multi": True, "steps": ["toggle+down", "toggle", "change-query(zzq)"], "final": "accept-or-print-query"},
+    {"multi": True, "print0": True, "steps": ["toggle+down", "toggle+down", "toggle"], "final": "accept", "min_items": 3},
+    {"multi": True, "steps": ["toggle", "change-query(zzq)"], "final": "accept-non-empty"},
+    {"multi": True, "print0": True, "printQuery": True, "steps": ["down", "toggle+up", "toggle", "print(p1)"], "final": "accept", "min_items": 3},
+    {"multi": False, "steps": ["change-query(zzq)"], "final": "accept-or-print-query"},
+    {"multi": True, "steps": ["toggle+down", "toggle", "change-query(zzq)"], "final": "accept"},
+    {"multi": True, "print0": True, "expect": True, "steps": ["select-all"], "final": "expect", "min_items": 3},
+    {"multi": True, "steps": ["toggle", "change-query(zzq)"], "final": "print-query"},
+]
+
+
+def directed_case(rng, n, k):
+    d = DIRECTED[k % len(DIRECTED)]
+    c = session_case(rng, n)
+    for key in ("multi", "print0", "printQuery", "expect"):
+        if key in d:
+            c["o"][key] = d[key]
+    if len(c["items"]) < d.get("min_items", 2):
+        pool = POOL + (POOL_ML if (c["read0"] and c["o"]["print0"]) else [])
+        c["items"] = [rng.choice(pool) for _ in range(d.get("min_items", 2) + rng.randint(0, 3))]
+        c["stdin"] = make_input(rng, c["items"], c["read0"])
+    c["o"]["withNth"] = 0          # every item searchable, so that the toggles land on items
+    c["steps"] = [("post", a) for a in d["steps"]]
+    c["final"] = d["final"]
+    c["directed"] = k % len(DIRECTED)
+    return c
+
+
 def mkpre(e):
     return {"input": list(e["input"]), "cx": e["cx"], "yanked": list(e["yanked"]), "cy": e["cy"],
             "offset": e["offset"], "sel": e["sel"], "multi": e["multi"]}
@@ -270,9 +301,10 @@ def run(ctx):
     ctx.mc("MC_Output", "MC_Output.cfg", timeout=900, workers=8)
     fzf = ctx.build_fzf()
     rng = ctx.rng
-    nf, ns, na = ctx.pick((500, 36, 24), (40000, 1500, 600))
+    nf, ns, na = ctx.pick((500, 40, 24), (40000, 1500, 600))
     fcases = [filter_case(ctx, fzf, rng, i) for i in range(nf)]
-    scases = [session_case(rng, i) for i in range(ns)]
+    nd = ctx.pick(len(DIRECTED), 6 * len(DIRECTED))
+    scases = [directed_case(rng, i, i) for i in range(nd)] + [session_case(rng, i) for i in range(nd, ns)]
     acases = [auto_case(rng, i) for i in range(na)]
     if ctx.replay:
         rp = json.load(open(ctx.replay))["case"]
